@@ -11,6 +11,8 @@ HARNESSES += _load("blk_common").ima_harnesses(("SEL_WRITE",))
 HARNESSES += _load("blk_common").sds_harnesses(("SEL_HEADER",))
 # ALAC staging layer (K-block contract for the bit-stream library)
 HARNESSES += _load("blk_common").alac_stage_harnesses(("SEL_WRITE",))
+# MS ADPCM write staging (reads exactly the items the caller supplied)
+HARNESSES += _load("blk_common").ms_stage_harnesses()
 # XI DPCM delta kernels: the predictor state carried between calls
 HARNESSES += [h for h in _load("blk_common").xi_split_harnesses() if h.defines["ENC"] == 1]
 
